@@ -3,7 +3,7 @@
 From Coq Require Import List NArith ZArith QArith Bool Arith Floats.
 From Interval Require Specific_bigint Specific_ops Float_full Xreal Interval.
 From Bignums Require BigZ.
-From LinfaVerif Require Export Common.Num Common.NdSum Common.Run Common.QF C06.Model C06.Dy.
+From LinfaVerif Require Export Common.Num Common.NdSum Common.Run Common.QF C06.Model C06.ModelLW C06.ModelKnn C06.Dy.
 Import ListNotations.
 Local Open Scope nat_scope.
 
@@ -14,6 +14,7 @@ Record hcase := {
   h_method : N;                       (* 0 single 1 complete 2 average 3 weighted 4 ward 5 centroid 6 median *)
   h_dist : list float;                (* harness: -ln transform of the implementation's upper triangle *)
   h_steps : list (@step float);       (* harness: kodama::linkage on h_dist *)
+  h_prim : option (list (@step float));  (* harness: kodama::primitive on h_dist (None: it panicked) *)
   h_runs : list (@crit float * list N)  (* criterion, labels returned by the implementation *)
 }.
 
@@ -120,6 +121,41 @@ Definition pow_iv (a p : dy) : II.type :=
   iv_libm (II.exp iprec (II.mul iprec (II.mul iprec (ivz p) (II.ln iprec (ivz a))) (iv_rel 1 (-50)))).
 Definition dy_pos (a : dy) : bool := (0 <? fst a)%Z.
 
+(* integrality / parity of a dyadic value m * 2^e *)
+Definition dy_is_int (a : dy) : bool :=
+  (0 <=? snd a)%Z || (Z.eqb (Z.land (Z.abs (fst a)) (Z.ones (- snd a))) 0).
+Definition dy_is_odd (a : dy) : bool :=
+  if (0 <? snd a)%Z then false
+  else if (snd a =? 0)%Z then Z.odd (fst a)
+  else dy_is_int a && Z.odd (Z.shiftr (Z.abs (fst a)) (- snd a)).
+(* v is powf(a, p) as IEEE 754 pow defines it, for finite a and p: 1 for p = 0; zero bases give 0 / inf with
+   the sign rule of odd integer exponents; negative bases give NaN unless p is an integer, else +-|a|^p;
+   positive bases the verified enclosure of exp(p ln a) (an infinite or zero result must be an overflow /
+   underflow: the enclosure then reaches beyond 2^1023 / below 2^-1022) *)
+Definition pow_entry_ok (a p v : float) : bool :=
+  if negb (f64_finite a && f64_finite p) then true else
+  if PrimFloat.eqb p 0 then f64_biteq v 1%float else
+  let pd := dy_of p in
+  let odd := dy_is_odd pd in
+  let mag_ok (x w : float) :=       (* w = x^p for x > 0 *)
+    let iv := pow_iv (dy_of x) pd in
+    if f64_finite w && PrimFloat.ltb 0 w then iv_has iv w
+    else match iv with
+         | Interval.Float.Ibnd lo hi =>
+             if PrimFloat.eqb w 0 then le_x (IF.cmp lo (fz 1 (-1022)))
+             else if PrimFloat.eqb w infinity then le_x (IF.cmp (fz 1 1023) hi)
+             else false
+         | _ => false
+         end in
+  if PrimFloat.eqb a 0 then
+    let neg := PrimFloat.get_sign a && odd in
+    if PrimFloat.ltb 0 p then f64_biteq v (if neg then (-0)%float else 0%float)
+    else f64_biteq v (if neg then neg_infinity else infinity)
+  else if PrimFloat.ltb 0 a then mag_ok a v
+  else if dy_is_int pd then
+    (if odd then mag_ok (PrimFloat.opp a) (PrimFloat.opp v) else mag_ok (PrimFloat.opp a) v)
+  else is_nan v.
+
 (* the tables sent by the harness hold values of the right functions *)
 Definition table_ok (m : @kmethod float) (t : list (float * float)) : bool :=
   forallb (fun p =>
@@ -128,7 +164,7 @@ Definition table_ok (m : @kmethod float) (t : list (float * float)) : bool :=
     match m with
     | KLinear => true
     | KGauss _ => iv_has (exp_iv (dy_of a)) (snd p)
-    | KPoly _ dg => if f64_finite dg && PrimFloat.ltb 0 a && f64_finite (snd p) then iv_has (pow_iv (dy_of a) (dy_of dg)) (snd p) else true
+    | KPoly _ dg => pow_entry_ok a dg (snd p)
     end) t.
 (* l is ln x up to 2^-51 (relative and absolute): checked through exp, which is the cheaper enclosure *)
 Definition ln_entry_ok (x l : float) : bool :=
@@ -175,10 +211,23 @@ Definition corr_kernel (c : case) : N :=
        + flag (csr_ok n (nats (c_indptr c)) (nats (c_indices c)) (c_data c)) 512)%N
   end.
 
+Definition lm_of (m : N) : lmethod :=
+  match m with
+  | 0%N => LSingle | 1%N => LComplete | 2%N => LAverage | 3%N => LWeighted | 4%N => LWard | 5%N => LCentroid | _ => LMedian
+  end.
+Definition step_biteq (a b : @step float) : bool :=
+  Nat.eqb (s_c1 a) (s_c1 b) && Nat.eqb (s_c2 a) (s_c2 b) && f64_biteq (s_d a) (s_d b) && Nat.eqb (s_size a) (s_size b).
+
 Definition corr_hier (c : case) (h : hcase) : N :=
   let n := length (c_X c) in
   let lnf := tab (c_lnt c) in
   (flag (vec_biteq (map (to_dist o64 lnf thr64) (c_upper c)) (h_dist h)) 64
+   (* the Lance-Williams model of the agglomerative procedure against kodama::primitive, bit for bit *)
+   + flag (match prim_linkage o64 (lm_of (h_method h)) n (h_dist h), h_prim h with
+           | Some ms, Some ps => list_eqb step_biteq ms ps
+           | None, None => true
+           | _, _ => false
+           end) 4096
    + flag (forallb (fun r => match hier o64 (fst r) (h_steps h) n with
                              | Some l => natlist_eqb l (nats (snd r))
                              | None => false
@@ -272,12 +321,16 @@ Definition oracle_kernel (c : case) : N :=
   let pattern_ok :=
     match c_sparse c with
     | None => true
-    | Some (k, _) =>
+    | Some (k, nbrs) =>
         let R := impl_rows c in
         let stored i j := match s_lookup j (nth i R []) with Some _ => true | None => false end in
+        let D := map (fun a => map (fun b => sq_l2 a b) X) X in
         Nat.eqb (length R) n
         && forallb (fun r => strictly_increasing (map fst r) && forallb (fun p => fst p <? n) r) R
         && knn_pattern_ok X (N.to_nat k) stored
+        (* exactly the freedom ties leave: the pattern is the adjacency of correct k+1-nearest answers, the
+           lists the index returned being the witness (C06/ModelKnn.v, sound and complete by C06/ProofsKnn.v) *)
+        && pattern_cert_ok o64 n (fun i j => nth j (nth i D []) nan) (N.to_nat k) (map nats nbrs) (map (map fst) R)
     end in
   (* 16: the reported views agree with the matrix *)
   let finite_M := forallb all_finite M in
@@ -389,6 +442,19 @@ Fixpoint valid_link (sel : float -> float -> float) (D : list (list float)) (n :
       && valid_link sel D n all (filter (fun a => negb (a =? s_c1 s) && negb (a =? s_c2 s)) alive ++ [ct]) (S ct) r
   end.
 
+(* kodama's dendrogram against the Lance-Williams recurrence: exact for single / complete linkage (minima and
+   maxima are not rounded), up to 2^-40 of the largest (squared) dissimilarity for the methods whose
+   recurrence is rounded (kodama evaluates it in merge order, the check in dendrogram order) *)
+Definition lw_dendrogram_ok (m : lmethod) (n : nat) (cond : list float) (steps : list (@step float)) : bool :=
+  if negb (all_finite cond) then true else
+  let T := tinit_cond o64 m n cond in
+  let scale := fold_left (fun acc r => fold_left (fun a x => fmax a (PrimFloat.abs x)) r acc) T 0%float in
+  let tol := match m with LSingle | LComplete => 0%float | _ => PrimFloat.mul scale 0x1p-40%float end in
+  let close x y := PrimFloat.eqb x y || PrimFloat.leb (PrimFloat.abs (PrimFloat.sub x y)) tol in
+  let le x y := PrimFloat.leb x (PrimFloat.add y tol) in
+  let pre x := if on_squares m then PrimFloat.mul x x else x in
+  lw_valid o64 close le pre m T (init_clusters n) n steps.
+
 Definition oracle_hier (c : case) (h : hcase) : N :=
   let n := length (c_X c) in
   let steps := h_steps h in
@@ -418,7 +484,8 @@ Definition oracle_hier (c : case) (h : hcase) : N :=
               | _ => 0
               end)%N
        end)%N in
-  N.lor (flag dendro_ok 2048) (lor_list (map run_ok (h_runs h))).
+  N.lor (N.lor (flag dendro_ok 2048) (flag (lw_dendrogram_ok (lm_of (h_method h)) n (h_dist h) steps) 32768))
+        (lor_list (map run_ok (h_runs h))).
 
 Definition run_case (c : case) : verdict :=
   (c_id c,
